@@ -62,12 +62,12 @@ CONFIGS = [
     _c("SIV", "SIV", "aead", mode="SIV", nonce_len=16, mac_len=16),
     _c("SIV[no-nonce]", "SIV", "aead", mode="SIV", nonce_len=0, mac_len=16),
     _c("CCM[-,-]", "CCM", "aead", mode="CCM", nonce_len=11, mac_len=16, msg_len=None, assoc_len=None),
-    _c("CCM[m21,-]", "CCM", "aead", mode="CCM", nonce_len=11, mac_len=16, msg_len=21, assoc_len=None),
-    _c("CCM[-,a21]", "CCM", "aead", mode="CCM", nonce_len=11, mac_len=16, msg_len=None, assoc_len=21),
-    _c("CCM[m21,a21]", "CCM", "aead", mode="CCM", nonce_len=11, mac_len=16, msg_len=21, assoc_len=21),
-    _c("CCM[m5,a5]", "CCM", "aead", mode="CCM", nonce_len=13, mac_len=8, msg_len=5, assoc_len=5),
-    _c("CCM[m0,a0]", "CCM", "aead", mode="CCM", nonce_len=7, mac_len=4, msg_len=0, assoc_len=0),
-    _c("CCM[m32,a16]", "CCM", "aead", mode="CCM", nonce_len=12, mac_len=16, msg_len=32, assoc_len=16),
+    _c("CCM[m21,-]", "CCM", "aead", mode="CCM", nonce_len=11, mac_len=16, msg_len=21, assoc_len=None, xd=1),
+    _c("CCM[-,a21]", "CCM", "aead", mode="CCM", nonce_len=11, mac_len=16, msg_len=None, assoc_len=21, xd=2),
+    _c("CCM[m21,a21]", "CCM", "aead", mode="CCM", nonce_len=11, mac_len=16, msg_len=21, assoc_len=21, xd=2),
+    _c("CCM[m5,a5]", "CCM", "aead", mode="CCM", nonce_len=13, mac_len=8, msg_len=5, assoc_len=5, xd=2),
+    _c("CCM[m0,a0]", "CCM", "aead", mode="CCM", nonce_len=7, mac_len=4, msg_len=0, assoc_len=0, xd=1),
+    _c("CCM[m32,a16]", "CCM", "aead", mode="CCM", nonce_len=12, mac_len=16, msg_len=32, assoc_len=16, xd=2),
     _c("CBC", "CBC", "classic", mode="CBC"),
     _c("CFB", "CFB", "classic", mode="CFB", segment_size=8),
     _c("CFB[128]", "CFB", "classic", mode="CFB", segment_size=128),
@@ -179,6 +179,7 @@ def build(entry, rng=None):
     fam = entry["fam"]
     cfg = {"aead": _build_aead, "classic": _build_classic, "hash": _build_hash, "xof": _build_xof}[fam](entry, rng)
     cfg.name, cfg.key, cfg.fam = entry["name"], entry["key"], fam
+    cfg.extra_depth = entry["p"].get("xd", 0)
     return cfg
 
 
@@ -627,19 +628,21 @@ def run(spec, ctx):
         w_random(spec, ctx)
 
 
-def _depth(k, tier):
-    cap = 45000 if tier == "quick" else 420000
+def _depth(k, tier, fam, extra=0):
+    """at least 4 (quick) / 5 (thorough); deeper while the number of sequences stays below a cap; `extra` for the
+    CCM configurations whose declared lengths end most sequences early"""
+    cap = 45000 if tier == "quick" else (420000 if fam == "aead" else 130000)
     d = 4 if tier == "quick" else 5
     while k ** (d + 1) <= cap and d < 9:
         d += 1
-    return d
+    return d + extra
 
 
 def w_exhaustive(cfg, spec, ctx):
     from .lifecycle import sym_str
     A = cfg.alphabet
     k = len(A)
-    depth = _depth(k, ctx.tier)
+    depth = _depth(k, ctx.tier, cfg.fam, cfg.extra_depth)
     part, nparts = spec["part"], spec["nparts"]
     if part == 0:
         ctx.count("depth:%s" % cfg.name, depth)
